@@ -180,6 +180,28 @@ func (it *Interp) reflectTypeMethod(tok *typeToken, name string, args []Value) V
 			n = iface.NumMethods()
 		}
 		return Value{Bits: uint64(n)}
+	case "NumIn", "NumOut", "IsVariadic", "In", "Out":
+		sig, ok := t.Underlying().(*types.Signature)
+		if !ok {
+			it.goPanicValue(mkStrIface(it, "reflect: "+name+" of non-func type "+typeStr(t)))
+		}
+		switch name {
+		case "NumIn":
+			return Value{Bits: uint64(sig.Params().Len())}
+		case "NumOut":
+			return Value{Bits: uint64(sig.Results().Len())}
+		case "IsVariadic":
+			return Value{Bits: b2u(sig.Variadic())}
+		}
+		i := int(it.concInt(args[0], types.Typ[types.Int]))
+		tup := sig.Params()
+		if name == "Out" {
+			tup = sig.Results()
+		}
+		if i < 0 || i >= tup.Len() {
+			it.goPanicValue(mkStrIface(it, "reflect: Func index out of bounds"))
+		}
+		return it.reflectTypeValue(tup.At(i).Type())
 	case "NumField":
 		if st, ok := t.Underlying().(*types.Struct); ok {
 			return Value{Bits: uint64(st.NumFields())}
@@ -237,6 +259,47 @@ func reflectIntrinsic(eng *Engine, fn *ssa.Function, name string) intrinsic {
 				it.unsupported("reflect.TypeOf of a reflect.Type")
 			}
 			return it.reflectTypeValue(ifc.t)
+		}
+	case name == "reflect.FuncOf":
+		return func(it *Interp, f *ssa.Function, args []Value) Value {
+			tuple := func(v Value) *types.Tuple {
+				sl, _ := v.Ref.(Slice)
+				vars := make([]*types.Var, sl.n)
+				for i := 0; i < sl.n; i++ {
+					vars[i] = types.NewParam(0, nil, "", it.tokenArg(sl.c[i].load()).t)
+				}
+				return types.NewTuple(vars...)
+			}
+			variadic := args[2].Ref == nil && args[2].Bits != 0
+			return it.reflectTypeValue(types.NewSignatureType(nil, nil, nil, tuple(args[0]), tuple(args[1]), variadic))
+		}
+	case name == "reflect.SliceOf":
+		return func(it *Interp, f *ssa.Function, args []Value) Value {
+			return it.reflectTypeValue(types.NewSlice(it.tokenArg(args[0]).t))
+		}
+	case name == "reflect.PointerTo", name == "reflect.PtrTo":
+		return func(it *Interp, f *ssa.Function, args []Value) Value {
+			return it.reflectTypeValue(types.NewPointer(it.tokenArg(args[0]).t))
+		}
+	case name == "reflect.MapOf":
+		return func(it *Interp, f *ssa.Function, args []Value) Value {
+			return it.reflectTypeValue(types.NewMap(it.tokenArg(args[0]).t, it.tokenArg(args[1]).t))
+		}
+	case name == "reflect.ArrayOf":
+		return func(it *Interp, f *ssa.Function, args []Value) Value {
+			n := it.concInt(args[0], types.Typ[types.Int])
+			return it.reflectTypeValue(types.NewArray(it.tokenArg(args[1]).t, n))
+		}
+	case name == "reflect.ChanOf":
+		return func(it *Interp, f *ssa.Function, args []Value) Value {
+			dir := types.SendRecv
+			switch it.concInt(args[0], types.Typ[types.Int]) {
+			case 1:
+				dir = types.RecvOnly
+			case 2:
+				dir = types.SendOnly
+			}
+			return it.reflectTypeValue(types.NewChan(dir, it.tokenArg(args[1]).t))
 		}
 	case strings.HasPrefix(name, "reflect.TypeFor["):
 		targs := fn.TypeArgs()
